@@ -246,6 +246,62 @@ Proof.
 Qed.
 Print Assumptions C10_convert_check_preserves.
 
+(* every header a class writes carries the signature its sniffer (may_contain_header) looks for: the
+   bytes of the default header after ANY sequence of named-setter writes (arbitrary fitting values in every
+   field but the protected ones: sizeof_hdr, magic, eol_check; smin for Analyze / SPM; version for MGH; xform
+   codes only from the recoder) and the save-time finalisation (magic by single / pair), in either byte
+   order.  NIfTI-2: `cifti` is what the CIFTI sniffer computes, and it is the header's intent_code looked up
+   in the accepted intervals whenever dim[0] is in 0..7 (so a NIfTI-2 writer that never sets a CIFTI intent
+   has signature ... false, Cifti2Image ... true).  This is the premise writer_sig of C12_load_picks_writer. *)
+Theorem C10_written_header_has_signature : forall c be ws,
+  Forall (fun w => allowed_write c w = true) ws ->
+  (is_nifti c = true -> is_nifti1 c = false ->
+     signature c (n2_cifti (written c be ws)) (written c be ws) = true
+     /\ (0 <= sval 8 (getf f_dim (final_hdr c ws)) <= 7 ->
+         n2_cifti (written c be ws) = in_intervals (sval 4 (getf f_intent_code (final_hdr c ws))) cifti_intents))
+  /\ ((is_nifti c = false \/ is_nifti1 c = true) -> forall cf, signature c cf (written c be ws) = true).
+Proof.
+  intros c be ws Hw. split.
+  - intros N N1. split; [now apply sig_nifti2|now apply n2_cifti_spec].
+  - intros H cf. destruct (is_nifti1 c) eqn:N1; [now apply sig_nifti1|].
+    destruct H as [N|]; [|discriminate]. destruct c; try discriminate.
+    + now apply sig_analyze. + now apply sig_analyze. + now apply sig_analyze. + now apply sig_mgh. + reflexivity.
+Qed.
+Print Assumptions C10_written_header_has_signature.
+
+(* the protection of smin matters: with raw item assignment (hdr['smin'] = 0x0031696e, a value that fits
+   the field) an Analyze header spells the NIfTI-1 magic 'ni1\0' at 344:348 and loses its signature - such
+   a file loads as Nifti1Pair (the corner C12 excludes).  No named Analyze / SPM setter writes smin. *)
+Theorem C10_signature_raw_assignment_refuted : exists ws,
+  Forall (fun w : Z * list Z => match find_field (fst w) (layout_of Analyze) with
+                                | Some f => vals_fitb f (snd w) | None => false end = true) ws
+  /\ signature Analyze false (written Analyze false ws) = false
+  /\ signature Nifti1Pair false (written Analyze false ws) = true.
+Proof.
+  exists [(f_smin, [3238254])]. split; [repeat constructor|split; vm_compute; reflexivity].
+Qed.
+Print Assumptions C10_signature_raw_assignment_refuted.
+
+(* which pixdim repairs check_fix can make (every Analyze-family class, every header that fits): pixdim[0] by
+   _chk_qfac where the class has it, pixdim[1:4] by _chk_pixdims (zeros -> 1, then abs of all three if one is
+   negative), pixdim[4:] never; so when pixdim[1:4] holds no zero and no negative the zooms are untouched.
+   With C10_convert_check_preserves this is the zooms clause of conversion with check=True: for the header h0
+   of the unchecked conversion (C10_convert_preserves_shape_zooms gives its zooms), provided h0 fits the
+   destination layout (premise: not proved for from_header, checked by the byte-level correspondence). *)
+Theorem C10_check_fix_pixdim : forall c h h' rs, analyze_family c = true -> hdr_fits (layout_of c) h = true ->
+  check_hdr c true h = Some (h', rs) ->
+  getf f_pixdim h'
+  = (if existsb (fun k => match k with CkQfac => true | _ => false end) (battery_of c)
+     then ck_fixv (view_env c h) CkQfac (firstn 1 (getf f_pixdim h)) else firstn 1 (getf f_pixdim h))
+    ++ ck_fixv (view_env c h) CkPixdims (firstn 3 (skipn 1 (getf f_pixdim h))) ++ skipn 4 (getf f_pixdim h)
+  /\ (any (f_le0 (pix_w c)) (firstn 3 (skipn 1 (getf f_pixdim h))) = false ->
+      skipn 1 (getf f_pixdim h') = skipn 1 (getf f_pixdim h) /\ get_zooms c h' = get_zooms c h).
+Proof.
+  intros c h h' rs Hf Hfit H. split; [exact (check_fix_pixdim c h h' rs Hf Hfit H)|].
+  now apply (check_fix_zooms_clean c h h' rs).
+Qed.
+Print Assumptions C10_check_fix_pixdim.
+
 (* copies are independent of the original.  The mutable parts of a header object (struct-array
    buffer, extension list) are store locations; copy() / same-class from_header / image construction
    allocate fresh ones with the same contents.  For every store, every valid header reference and
